@@ -220,3 +220,4 @@ import props_coh  # noqa: E402  (registers C19, C20)
 import props_panic  # noqa: E402  (registers C12)
 import props_terms  # noqa: E402  (registers C18, C25, C26)
 import props_infer  # noqa: E402  (registers C14, C15, C16)
+import props_sub  # noqa: E402  (registers C29)
